@@ -94,6 +94,13 @@ def run(ctx):
                 ('glob.globmatch', lambda: Gm.globmatch(nm, P, flags=gv)),
                 ('glob.globmatch(REALPATH)', lambda: Gm.globmatch(nm, P, flags=gv | Gm.REALPATH)),
                 ('glob.is_magic', lambda: Gm.is_magic(P, flags=gv)),
+                # the sequence spelling of the same pattern, matcher objects, filters
+                ('fnmatch.fnmatch[list]', lambda: Fm.fnmatch(nm, [P], flags=fv)),
+                ('glob.globmatch[list]', lambda: Gm.globmatch(nm, [P], flags=gv)),
+                ('fnmatch.compile[list].match', lambda: Fm.compile([P], flags=fv).match(nm)),
+                ('glob.compile[list].filter', lambda: Gm.compile([P], flags=gv).filter([nm])),
+                ('glob.globfilter[list]', lambda: Gm.globfilter([nm], [P], flags=gv)),
+                ('fnmatch.translate[list]', lambda: Fm.translate([P], flags=fv)),
             ]
             if '..' not in p and not p.startswith(('/', '~')) and '{' not in p:
                 calls.append(('glob.glob', lambda: Gm.glob(P, flags=gv, root_dir=(tmp.encode() if isb else tmp))))
@@ -122,8 +129,8 @@ def run(ctx):
                         # only the documented ValueErrors: absolute pattern where forbidden, class/flag mismatch in pathlib
                         if any(t in str(e) for t in ('relative path pattern', 'cannot be forced to behave', 'empty pattern', 'Unacceptable pattern')):
                             continue
-                    elif nme in DOCUMENTED:
-                        continue
+                    elif nme in DOCUMENTED and nme != 'TypeError':
+                        continue        # (TypeError is documented for mixed str/bytes only; every call here is consistently typed)
                     ctx.counterexample('%s(%r) raised %s: %s' % (api, P, nme, e),
                                        {'api': api, 'pattern': p, 'bytes': isb, 'flags': fv if api[0] == 'f' else gv})
             if any(c in p for c in '*?[]()|!\\'):
